@@ -18,7 +18,7 @@ META = {
         "labelled Some(sale date) / Some(candidate date) / None. R6: the 30-day matched quantity depends on the prior-claim map "
         "read at the candidate's index and on the same-day reservation for (candidate date, ticker). R7: intervening SPLIT/UNSPLIT "
         "compound into the look-ahead's cumulative ratio (×= / ÷= by the variant's own ratio) and quantities are rescaled with it "
-        "(shared with C10-R2/R3). Does not decide quantities, "
+        "(shared with C10-R2/R3). R6 also requires that claims on a later acquisition are accumulated on its own entry (shared with C02-R3). Does not decide quantities, "
         "costs or the reservation state machine against the statute."),
     "trusted_base": ["chrono: (a − b).num_days() is the signed day difference", "rustc MIR + resolution", "Vec::sort_by is stable"],
 }
